@@ -232,7 +232,11 @@ def coverage_terminals(prog, b, op, seen, out, depth=0):
         elif d[0] in ("call", "partial_call"):
             c = d[2]
             nm = c.name()
-            if nm in PRESERVING and c.args:
+            if nm in ("box_assume_init_into_vec_unsafe", "into_vec") and c.args and _vec_macro_elements(b, c.args[0]) is not None:
+                # vec![a, b, ..]: the elements are written through a raw copy of the box pointer
+                for o in _vec_macro_elements(b, c.args[0]):
+                    coverage_terminals(prog, b, o, seen, out, depth + 1)
+            elif nm in PRESERVING and c.args:
                 coverage_terminals(prog, b, c.args[0], seen, out, depth + 1)
             elif nm == "map" and len(c.args) == 2:
                 key, inner = _closure_calls(prog, b, c.args[1])
@@ -375,3 +379,28 @@ def skip_edges(b, h, blocks, effect_blocks):
                 # only edges that are actually on an iteration path (reachable from the loop body entry)
                 out.append((bb, tgt, cd))
     return out
+
+
+def _vec_macro_elements(b, box_op):
+    """operands of the array literal stored into the box that `vec![..]` turns into a Vec, or None"""
+    pl = F.op_place(box_op)
+    if pl is None:
+        return None
+    box_l = b.alias_root(box_op)
+    for bb, i, dst, rv, st in b.assigns():
+        if not dst["p"] or dst["p"][0]["k"] != "deref" or rv["rv"] != "aggregate" or rv.get("ak") != "array":
+            continue
+        # is dst's base pointer derived from the box?
+        cur = dst["l"]
+        for _ in range(8):
+            full = [d for d in b.defs().get(cur, []) if d[0] in ("assign", "call", "arg")]
+            if len(full) != 1 or full[0][0] != "assign":
+                break
+            r2 = full[0][3]
+            src = F.op_place(r2["op"]) if r2["rv"] in ("use", "cast") else (r2.get("pl") if r2["rv"] in ("ref", "rawptr") else None)
+            if src is None:
+                break
+            cur = src["l"]
+            if cur == box_l or b.alias_root(cur) == box_l:
+                return list(rv["ops"])
+    return None
